@@ -28,13 +28,13 @@ ASSUMPTIONS = COMMON_ASSUMPTIONS + ["Container objects do not alias: a container
 
 def check_writers(ctx, num=1):
     P = ctx.P
-    allowed = {f"{RP}::ResourcePool.__init__", f"{RP}::ResourcePool.run_one_tick"}
+    allowed = {f"{RP}::ResourcePool.__init__"} | {f"{RP}::{q}" for q in pool.pool_analysis(P).closure}
     for attr in list(pool.LISTS) + list(pool.AVAIL):
         ws = attr_writes(P, attr)
         ctx.count_min(f"writers of {attr}", len(ws), 2)
         for w in ws:
             who = f"{w.fn.mod.rel}::{w.fn.qual}"
-            ctx.ob(num, "K1", f"{attr} is written only by ResourcePool.__init__ and ResourcePool.run_one_tick", who in allowed and w.how != "dynamic",
+            ctx.ob(num, "K1", f"{attr} is written only by ResourcePool.__init__ and ResourcePool.run_one_tick (incl. private helpers extracted from it)", who in allowed and w.how != "dynamic",
                    w.fn, w.node, detail=f"{w.how} in {who}")
 
 
